@@ -112,7 +112,7 @@ fn case_text(i: usize, c: &Case) -> String {
 }
 
 fn module_text(cases: &[Case]) -> String {
-    let mut s = format!("Int-Mod DEFINITIONS AUTOMATIC TAGS ::= BEGIN\nUnc ::= INTEGER\nWide ::= INTEGER (-{WIDE}..{WIDE})\n");
+    let mut s = format!("Int-Mod DEFINITIONS AUTOMATIC TAGS ::= BEGIN\nUnc ::= INTEGER\nWide ::= INTEGER (-{WIDE}..{WIDE})\nMid ::= INTEGER (0..300)\n");
     for (i, c) in cases.iter().enumerate() {
         s.push_str(&case_text(i, c));
         s.push('\n');
@@ -344,6 +344,9 @@ fn run_cases(ctx: &mut Ctx, cases: Vec<Case>) {
                         Ok(o) => {
                             ctx.case(&line, nontrivial(&case));
                             ctx.class(&format!("pos:{:?}", case.pos));
+                            if case.combo.as_ref().map_or(false, |k| k.0.contains("Wide") || k.0.contains("Mid")) {
+                                ctx.class("combo:contained-subtype-operand");
+                            }
                             for (_, t) in &o.types {
                                 ctx.class(&format!("type:{t}"));
                             }
@@ -388,14 +391,28 @@ fn combo_case(src: &mut Src, bs: &[i128]) -> Case {
     for _ in 0..nser {
         let n = 1 + src.pick(3);
         let union = src.chance(50);
-        let parts: Vec<(Option<i128>, Option<i128>)> = (0..n).map(|_| pick(src)).collect();
+        // an operand is a range / single value or, now and then, a contained subtype (the
+        // values of another constrained INTEGER type, X.680 51.3)
+        let parts: Vec<(String, IntSet)> = (0..n)
+            .map(|_| {
+                if src.chance(15) {
+                    match src.pick(3) {
+                        0 => ("Wide".to_string(), IntSet::range(Some(-WIDE), Some(WIDE))),
+                        1 => ("INCLUDES Mid".to_string(), IntSet::range(Some(0), Some(300))),
+                        _ => ("Mid".to_string(), IntSet::range(Some(0), Some(300))),
+                    }
+                } else {
+                    let (l, h) = pick(src);
+                    (if l.is_some() && l == h { b(l, true) } else { format!("{}..{}", b(l, true), b(h, false)) }, IntSet::range(l, h))
+                }
+            })
+            .collect();
         let mut cur = if union { IntSet::empty() } else { IntSet::all() };
-        for (l, h) in &parts {
-            let s = IntSet::range(*l, *h);
-            cur = if union { cur.union(&s) } else { cur.intersect(&s) };
+        for (_, s) in &parts {
+            cur = if union { cur.union(s) } else { cur.intersect(s) };
         }
         let e = src.chance(20);
-        let strs: Vec<String> = parts.iter().map(|(l, h)| if l.is_some() && l == h { b(*l, true) } else { format!("{}..{}", b(*l, true), b(*h, false)) }).collect();
+        let strs: Vec<String> = parts.iter().map(|(t, _)| t.clone()).collect();
         text.push_str(&format!("({}{})", strs.join(if union { " | " } else { " ^ " }), if e { ", ..." } else { "" }));
         set = set.intersect(&cur);
         if !e {
